@@ -128,6 +128,13 @@ def run(chk):
                 spec[f"l{i}"] = (["and", "or", "xor", "nand", "nor"][i % 5], ["drv", "a" if i % 2 else "b"])
             spec["o"] = ("xor", [f"l{i}" for i in range(nl)])
             fanout_models.append((f"fanout::{dname}-drives-{nl}" + ("-and-is-an-output" if as_out and dname != "input" else ""), build(spec, outputs=["o"] + (["drv"] if as_out and dname != "input" else []))))
+    # a net whose loads are all buffers (a signal exported on several output buffers, an input distributed through branch buffers)
+    for dname, dspec in (("input", ("input", [])), ("gate", ("xor", ["a", "b"]))):
+        spec = {"a": ("input", []), "b": ("input", []), "drv": dspec}
+        for i in range(6):
+            spec[f"e{i}"] = ("buf", ["drv"])
+        spec["o"] = ("and", ["e4", "e5", "a"])
+        fanout_models.append((f"fanout::{dname}-drives-six-buffers-only", build(spec, outputs=["o", "e0", "e1", "e2", "e3"])))
     # blackbox input pins are loads like any other: one net on the clock pin of five flops (and on a gate)
     ffm_ = RefBlackBox("ff", ["clk", "d"], ["q"])
     spec = {"ck": ("input", []), "a": ("input", []), "b": ("input", []), "en": ("and", ["ck", "a"])}
